@@ -99,9 +99,11 @@ fn replay_op(ctx: &Ctx, doc: &Value, t: &mut Tally) {
                 prev = out_s;
             }
         }
-        if steps.len() > 1 {
-            t.nontrivial += 1;
-        }
+    }
+    // non-trivial: the operation failed, changed the string, or executed more than one pipeline step
+    let steps_n = doc.get("steps").and_then(|s| s.as_array()).map(|a| a.len()).unwrap_or(0);
+    if doc["res"].get("err").is_some() || doc["res"].get("ok").map(|o| *o != doc["in"]).unwrap_or(false) || steps_n > 1 {
+        t.nontrivial += 1;
     }
     let args = [input.clone()];
     let actual = call_profile(p, op, &args);
